@@ -22,6 +22,13 @@ func oobShape(i *Instruction) bool {
 	return int(i.v2) == gr("icmpRet") && gr("icmpC") == int(IntegerCmpCondUnsignedLessThan) && gr("icmpY") == gr("iaddRet")
 }
 
+// isExitCodeCheck: an indirect call through the pointer most recently loaded from the execution context's
+// "check module exit code" trampoline slot (what close-on-context-done relies on, C07).
+func isExitCodeCheck(i *Instruction) bool {
+	return i.opcode == OpcodeCallIndirect && int(i.v) == gr("loadRet") &&
+		gr("loadOff") == int(wazevoapi.ExecutionContextOffsetCheckModuleExitCodeTrampolineAddress)
+}
+
 func b2g(b bool) int {
 	if b {
 		return 1
@@ -41,6 +48,8 @@ func b2g(b bool) int {
 //@   ensures[iconst] (raw.opcode == OpcodeIconst ==> gr("iconstVal") == int(raw.u1) && gr("iconstRet") == int(raw.rValue)) && (raw.opcode != OpcodeIconst ==> gr("iconstVal") == old(gr("iconstVal")) && gr("iconstRet") == old(gr("iconstRet")))
 //@   ensures[iadd] (raw.opcode == OpcodeIadd ==> gr("iaddX") == int(raw.v) && gr("iaddY") == int(raw.v2) && gr("iaddRet") == int(raw.rValue)) && (raw.opcode != OpcodeIadd ==> gr("iaddX") == old(gr("iaddX")) && gr("iaddY") == old(gr("iaddY")) && gr("iaddRet") == old(gr("iaddRet")))
 //@   ensures[icmp] (raw.opcode == OpcodeIcmp ==> gr("icmpX") == int(raw.v) && gr("icmpY") == int(raw.v2) && gr("icmpC") == int(raw.u1) && gr("icmpRet") == int(raw.rValue)) && (raw.opcode != OpcodeIcmp ==> gr("icmpX") == old(gr("icmpX")) && gr("icmpY") == old(gr("icmpY")) && gr("icmpC") == old(gr("icmpC")) && gr("icmpRet") == old(gr("icmpRet")))
+//@   ensures[load] (raw.opcode == OpcodeLoad ==> gr("loadPtr") == int(raw.v) && gr("loadOff") == int(raw.u1) && gr("loadRet") == int(raw.rValue)) && (raw.opcode != OpcodeLoad ==> gr("loadPtr") == old(gr("loadPtr")) && gr("loadOff") == old(gr("loadOff")) && gr("loadRet") == old(gr("loadRet")))
+//@   ensures[exit-check] gr("exitChecks") == old(gr("exitChecks")) + old(b2g(isExitCodeCheck(raw)))
 //@   ensures[oob] isOOBCheck(raw) ==> gr("oobChecks") == old(gr("oobChecks")) + 1 && gr("oobCode") == int(raw.u1) && gr("oobLen") == old(gr("icmpX")) && gr("oobAddX") == old(gr("iaddX")) && gr("oobAddY") == old(gr("iaddY")) && gr("oobArg") == old(gr("uextArg")) && gr("oobCeil") == old(gr("iconstVal")) && gr("oobViaExt") == old(b2g(gr("iaddX") == gr("uextRet") && gr("uextFT") == 32<<8|64)) && gr("oobViaConst") == old(b2g(gr("iaddY") == gr("iconstRet")))
 //@   ensures[not-oob] !isOOBCheck(raw) ==> gr("oobChecks") == old(gr("oobChecks")) && gr("oobCode") == old(gr("oobCode")) && gr("oobLen") == old(gr("oobLen")) && gr("oobAddX") == old(gr("oobAddX")) && gr("oobAddY") == old(gr("oobAddY")) && gr("oobArg") == old(gr("oobArg")) && gr("oobCeil") == old(gr("oobCeil")) && gr("oobViaExt") == old(gr("oobViaExt")) && gr("oobViaConst") == old(gr("oobViaConst"))
-//@   modifies raw.rValue, ghost("uextArg"), ghost("uextRet"), ghost("uextFT"), ghost("iconstVal"), ghost("iconstRet"), ghost("iaddX"), ghost("iaddY"), ghost("iaddRet"), ghost("icmpX"), ghost("icmpY"), ghost("icmpC"), ghost("icmpRet"), ghost("oobChecks"), ghost("oobCode"), ghost("oobArg"), ghost("oobCeil"), ghost("oobLen"), ghost("oobAddX"), ghost("oobAddY"), ghost("oobViaExt"), ghost("oobViaConst")
+//@   modifies raw.rValue, ghost("loadPtr"), ghost("loadOff"), ghost("loadRet"), ghost("exitChecks"), ghost("uextArg"), ghost("uextRet"), ghost("uextFT"), ghost("iconstVal"), ghost("iconstRet"), ghost("iaddX"), ghost("iaddY"), ghost("iaddRet"), ghost("icmpX"), ghost("icmpY"), ghost("icmpC"), ghost("icmpRet"), ghost("oobChecks"), ghost("oobCode"), ghost("oobArg"), ghost("oobCeil"), ghost("oobLen"), ghost("oobAddX"), ghost("oobAddY"), ghost("oobViaExt"), ghost("oobViaConst")
